@@ -2,7 +2,8 @@
    Statement file: theorems, [exact lemma], Print Assumptions.  Nothing else. *)
 From Coq Require Import Arith List Reals QArith Qcanon.
 From GPV Require Import Base.LinAlg Base.Exec Base.Expr Models.C12_noise Proofs.C12_kron
-  Proofs.C12_noise.
+  Proofs.C12_noise Proofs.C12_hist.
+Import ListNotations.
 
 (* marginal (m, C) |-> (m, C + R): the mean is untouched and R is added exactly once *)
 Theorem c12_marginal_adds_noise_once :
@@ -181,6 +182,99 @@ Theorem c12_likelihood_list_defined :
     exists r, list_call f ls xs ns = Some r.
 Proof. intros L A N O. exact (@list_call_defined L A N O). Qed.
 Print Assumptions c12_likelihood_list_defined.
+
+(* ---- specification histories: R depends only on the LAST specification of each component ---- *)
+
+(* FixedNoiseGaussianLikelihood, any history of constructor / setter / initialize / raw parameter /
+   get_fantasy_likelihood operations (any length): re-specifying the fixed noise forgets everything
+   specified for it before (ops1 and the earlier state are irrelevant), operations on the learned
+   noise do not touch it, and a fantasy step appends the rounded-up new noise *)
+Theorem c12_history_fixed_part_last_specification :
+  forall (K : Fld) (clampf : car -> car) ops1 v ops2 st l nw,
+    st_fixed (spec_run clampf (ops1 ++ OpFixed v :: ops2) st)
+      = st_fixed (spec_run clampf ops2 (mk_nstate v l)) /\
+    (Forall is_second ops2 -> st_fixed (spec_run clampf (ops1 ++ OpFixed v :: ops2) st) = v) /\
+    st_fixed (spec_run clampf (ops1 ++ [OpFantasy nw]) st)
+      = st_fixed (spec_run clampf ops1 st) ++ map clampf nw.
+Proof.
+  intros K clampf ops1 v ops2 st l nw. split; [apply spec_fixed_forgets|].
+  split; [apply spec_last_fixed|apply spec_fantasy_appends].
+Qed.
+Print Assumptions c12_history_fixed_part_last_specification.
+
+(* the learned noise is the one of the last second_noise specification (if the likelihood has a learned
+   noise at all; otherwise it never gets one), whatever happened to the fixed part *)
+Theorem c12_history_learned_part_last_specification :
+  forall (K : Fld) (clampf : car -> car) ops1 s ops2 st,
+    (st_learned st <> None -> Forall not_second ops2 ->
+       st_learned (spec_run clampf (ops1 ++ OpSecond s :: ops2) st) = Some s) /\
+    (st_learned st = None -> st_learned (spec_run clampf ops1 st) = None).
+Proof.
+  intros K clampf ops1 s ops2 st. split; [apply spec_last_second|apply spec_learned_absent].
+Qed.
+Print Assumptions c12_history_learned_part_last_specification.
+
+(* what is added after `lik.noise = v` (then any number of learned-noise updates), after any history:
+   diag(v) + sigma^2 I with the CURRENT learned sigma^2; and a call-time noise replaces the fixed part of
+   any state exactly as passed (no floor), the learned part is kept *)
+Theorem c12_history_noise_after_respecification :
+  forall (K : Fld) (clampf : car -> car) ops1 v ops2 st i j, Forall is_second ops2 ->
+    R_hist (length v) (spec_run clampf (ops1 ++ OpFixed v :: ops2) st) None i j
+    = if Nat.eqb i j
+      then fadd (nth i v f0) (opt0 (st_learned (spec_run clampf (ops1 ++ OpFixed v :: ops2) st)))
+      else f0.
+Proof. intros K clampf ops1 v ops2 st i j H. exact (R_hist_after_respecification clampf ops1 v ops2 st i j H). Qed.
+Print Assumptions c12_history_noise_after_respecification.
+
+Theorem c12_history_call_noise_exact :
+  forall (K : Fld) N st c i j,
+    R_hist N st (Some c) i j = if Nat.eqb i j then fadd (c i) (opt0 (st_learned st)) else f0.
+Proof. intros K. exact (@R_hist_call K). Qed.
+Print Assumptions c12_history_call_noise_exact.
+
+Example ex_c12_history : Forall (@is_second QcF) [qOpSecond (qc 1 8); qOpSecond (qc 1 4)].
+Proof. repeat constructor. Qed.
+
+(* storing value - sigma^2 through the setter is refuted by the model: [1/2], sigma^2 = 1/8 *)
+Theorem c12_setter_minus_second_refuted :
+  exists (v : Qc) (s : Qc),
+    R_hist (K:=QcF) 1%nat (mk_nstate (K:=QcF) [(v - s)%Qc] (Some s)) None O O
+    <> R_hist (K:=QcF) 1%nat
+         (spec_run (K:=QcF) (fun x => x) [qOpFixed [v]] (mk_nstate (K:=QcF) [v] (Some s))) None O O.
+Proof. exact R_hist_setter_minus_second_refuted. Qed.
+Print Assumptions c12_setter_minus_second_refuted.
+
+(* construction-time rounding (settings.min_fixed_noise): every stored value is >= the floor and values
+   at or above the floor are stored exactly *)
+Theorem c12_constructor_floor :
+  forall floor v : Qc, (floor <= qc_clamp floor v)%Qc /\ ((floor <= v)%Qc -> qc_clamp floor v = v).
+Proof. intros floor v. split; [apply qc_clamp_ge|apply qc_clamp_id]. Qed.
+Print Assumptions c12_constructor_floor.
+
+(* plain-parameter likelihoods (GaussianLikelihood.noise; MultitaskGaussianLikelihood noise / task_noises /
+   task_noise_covar_factor): each component holds the value of the last operation that addressed it *)
+Theorem c12_parameter_last_specification :
+  forall (K : Fld) ops1 ops2 st (s : car) d F,
+    (mt_glob st <> None -> Forall (fun op => ~ addresses_glob op) ops2 ->
+       mt_glob (mt_run (ops1 ++ MGlob s :: ops2) st) = Some s) /\
+    (Forall (fun op => ~ addresses_task op) ops2 -> mt_d (mt_run (ops1 ++ MTask d :: ops2) st) = d) /\
+    (Forall (fun op => ~ addresses_factor op) ops2 -> mt_F (mt_run (ops1 ++ MFactor F :: ops2) st) = F) /\
+    (forall (V : Type) (init v : V) ops, last_spec init (ops ++ [v]) = v).
+Proof.
+  intros K ops1 ops2 st s d F. split; [apply mt_last_glob|]. split; [apply mt_last_task|].
+  split; [apply mt_last_factor|]. intros V init v ops. apply last_spec_app.
+Qed.
+Print Assumptions c12_parameter_last_specification.
+
+(* LikelihoodList with a noise list containing None entries (any positions, any length): member k with a
+   None entry is called without call-time noise — it never inherits another member's entry *)
+Theorem c12_likelihood_list_none_entry :
+  forall ls Ns ns r k dl dx dr,
+    list_call member_call ls Ns (Some ns) = Some r -> (k < length ls)%nat ->
+    nth k ns None = None ->
+    nth k r dr = member_call (nth k ls dl) (nth k Ns dx) None.
+Proof. exact list_call_none_entry. Qed.
+Print Assumptions c12_likelihood_list_none_entry.
 
 (* ======================================================================================== *)
 (* C12's expectation is C13's (Proofs/C13_tie.v): the degree-<=2 functional [E2 m v] used in
